@@ -312,7 +312,8 @@ Definition step_gen (pre_fix : bool) (s : state) (l : label) : option state :=
       else Some (do_resolve (k_kind k) (mk (st_db s) (pend s ++ [(q, k)]) (outbox s) (expq s)))
   | LAnswer q k c =>
       if existsb (ans_eqb (q, k, c)) (outbox s)
-      then Some (mk (st_db s) (pend s) (filter (fun x => negb (N.eqb (fst (fst x)) q)) (outbox s)) (expq s))
+      then Some (mk (st_db s) (filter (fun x => negb (N.eqb (fst x) q)) (pend s))   (* no-op: q is not pending (ids of live readers are distinct) *)
+                    (filter (fun x => negb (N.eqb (fst (fst x)) q)) (outbox s)) (expq s))
       else None
   | LCancel q =>
       if qid_in_pend q (pend s) || qid_in_out q (outbox s)
@@ -339,6 +340,37 @@ Fixpoint first_reject (pre_fix : bool) (s : state) (ls : list label) (i : nat) :
   match ls with
   | [] => None
   | l :: r => match step_gen pre_fix s l with Some s' => first_reject pre_fix s' r (S i) | None => Some i end
+  end.
+
+(* Model-guided diagnosis of a refused label (used by the check to turn a correspondence break
+   into a concrete finding; no theorem depends on it):
+   1 = the model expected a clash error that the implementation did not return,
+   2 = quiescence although the model holds a response for a reader (a satisfiable query is blocked),
+   3 = a reader got other content than the model's stored value for its key, 0 = anything else. *)
+Definition is_clash (e : err) : bool :=
+  match e with EClashPK | EClashAtt | EClashSrc | EClashTgt | EClashPro | EClashAgg | EClashCon => true | _ => false end.
+Fixpoint first_err (t : dtype) (es : list entry) (d : db) : option err :=
+  match es with
+  | [] => None
+  | e :: r => match store_entry false t e d with (d', None) => first_err t r d' | (_, Some er) => Some er end
+  end.
+Definition diagnose (s : state) (l : label) : N :=
+  match l with
+  | LStore (t, _) Scheduled vis unv res =>
+      match kind_of_dt t, first_err t vis (st_db s) with
+      | Some _, Some er =>
+          if is_clash er && match res with Some e => negb (is_clash e) | None => true end then 1 else 0
+      | _, _ => 0
+      end
+  | LQuiet => match outbox s with [] => 0 | _ => 2 end
+  | LAnswer q k c =>
+      if existsb (fun x => let '(q', k', c') := x in N.eqb q q' && key_eqb k k' && negb (N.eqb c c')) (outbox s) then 3 else 0
+  | _ => 0
+  end.
+Fixpoint first_reject_diag (s : state) (ls : list label) (i : nat) : option (nat * N) :=
+  match ls with
+  | [] => None
+  | l :: r => match step_gen false s l with Some s' => first_reject_diag s' r (S i) | None => Some (i, diagnose s l) end
   end.
 
 (* ================= the property, read off the trace alone (no model state) ================= *)
@@ -382,9 +414,10 @@ Record ghost := mkg {
   g_disc : bool;               (* discipline held so far *)
   g_must : list N;             (* queries that must return before the next quiescent point *)
   g_prov : list key;           (* keys provided by successful Stores with no deletion since *)
-  g_expn : bool                (* an emitted duty may still be waiting on C() *)
+  g_expn : bool;               (* an emitted duty may still be waiting on C() *)
+  g_dirty : list kind          (* types with a failed Store (possible partial effects) since their queries were last resolved *)
 }.
-Definition ginit : ghost := mkg [] [] [] [] [] true [] [] false.
+Definition ginit : ghost := mkg [] [] [] [] [] true [] [] false [].
 
 Definition pair_in (k : key) (c : N) (l : list (key * N)) : bool :=
   existsb (fun x => key_eqb (fst x) k && N.eqb (snd x) c) l.
@@ -423,6 +456,10 @@ Definition check (g : ghost) (l : label) : bool :=
   | _ => true
   end.
 
+Definition drop_kind (kd : kind) (l : list kind) : list kind := filter (fun x => negb (kind_eqb x kd)) l.
+Definition drop_q (q : N) (l : list (N * key)) : list (N * key) := filter (fun x => negb (N.eqb (fst x) q)) l.
+Definition drop_n (q : N) (l : list N) : list N := filter (fun x => negb (N.eqb x q)) l.
+
 Definition gstep (g : ghost) (l : label) : ghost :=
   match l with
   | LStore d st vis unv res =>
@@ -431,26 +468,31 @@ Definition gstep (g : ghost) (l : label) : ghost :=
           let disc := g_disc g && store_disc g d st vis in
           let off := flat_map (offers (fst d)) vis ++ g_off g in
           let offpk := flat_map (offers_pk (fst d)) vis ++ g_offpk g in
-          if resolved_res res then
-            let ks := store_keys (fst d) vis in
-            let must := map fst (filter (fun x => in_keys (snd x) ks) (g_pend g)) ++ g_must g in
-            let prov := if g_expn g then [] else ks ++ g_prov g in
-            mkg (g_pend g) off offpk (g_ans g) (g_dead g) disc must prov
-                (match res with None => false | _ => g_expn g end)
-          else mkg (g_pend g) off offpk (g_ans g) (g_dead g) disc (g_must g) (g_prov g) (g_expn g)
+          match kind_of_dt (fst d) with
+          | Some kd =>
+              if resolved_res res then
+                let ks := store_keys (fst d) vis in
+                let must := map fst (filter (fun x => in_keys (snd x) ks) (g_pend g)) ++ g_must g in
+                let prov := if g_expn g then [] else ks ++ g_prov g in
+                mkg (g_pend g) off offpk (g_ans g) (g_dead g) disc must prov
+                    (match res with None => false | _ => g_expn g end) (drop_kind kd (g_dirty g))
+              else mkg (g_pend g) off offpk (g_ans g) (g_dead g) disc (g_must g) (g_prov g) (g_expn g) (kd :: g_dirty g)
+          | None => mkg (g_pend g) off offpk (g_ans g) (g_dead g) disc (g_must g) (g_prov g) (g_expn g) (g_dirty g)
+          end
       | _ => g
       end
   | LAwaitReg q k =>
       mkg (g_pend g ++ [(q, k)]) (g_off g) (g_offpk g) (g_ans g) (g_dead g) (g_disc g)
           (if in_keys k (g_prov g) then q :: g_must g else g_must g) (g_prov g) (g_expn g)
+          (drop_kind (k_kind k) (g_dirty g))
   | LAnswer q k c =>
-      mkg (filter (fun x => negb (N.eqb (fst x) q)) (g_pend g)) (g_off g) (g_offpk g) ((k, c) :: g_ans g)
-          (g_dead g) (g_disc g) (filter (fun x => negb (N.eqb x q)) (g_must g)) (g_prov g) (g_expn g)
+      mkg (drop_q q (g_pend g)) (g_off g) (g_offpk g) ((k, c) :: g_ans g)
+          (g_dead g) (g_disc g) (drop_n q (g_must g)) (g_prov g) (g_expn g) (g_dirty g)
   | LCancel q =>
-      mkg (filter (fun x => negb (N.eqb (fst x) q)) (g_pend g)) (g_off g) (g_offpk g) (g_ans g)
-          (g_dead g) (g_disc g) (filter (fun x => negb (N.eqb x q)) (g_must g)) (g_prov g) (g_expn g)
+      mkg (drop_q q (g_pend g)) (g_off g) (g_offpk g) (g_ans g)
+          (g_dead g) (g_disc g) (drop_n q (g_must g)) (g_prov g) (g_expn g) (g_dirty g)
   | LExpire d =>
-      mkg (g_pend g) (g_off g) (g_offpk g) (g_ans g) (d :: g_dead g) (g_disc g) (g_must g) (g_prov g) true
+      mkg (g_pend g) (g_off g) (g_offpk g) (g_ans g) (d :: g_dead g) (g_disc g) (g_must g) (g_prov g) true (g_dirty g)
   | LPubKey _ _ _ _ => g
   | LQuiet => g
   end.
